@@ -284,14 +284,18 @@ Definition remove (files : list bytes) (keep force : bool) (s : state) : state :
 Record mres := {
   r_main : option bytes; r_base : option bytes; r_this : option bytes; r_other : option bytes;
   r_moved : option bytes;
-  r_conf : string               (* "" | "text" | "contents" | "duplicate" *)
+  r_conf : string;              (* "" | "text" | "contents" | "duplicate" *)
+  r_mm : bool                   (* the path is in merge_modified() afterwards: Merge3Merger.write_modified records the
+                                   paths InventoryTreeTransform._apply_insertions reports as modified, i.e. the
+                                   trans_ids that received NEW CONTENT (not those that were merely renamed) *)
 }.
 Definition mres0 (this : bytes) : mres :=
-  {| r_main := Some this; r_base := None; r_this := None; r_other := None; r_moved := None; r_conf := "" |}.
+  {| r_main := Some this; r_base := None; r_this := None; r_other := None; r_moved := None; r_conf := "";
+     r_mm := false |}.
 
-Definition of_wt (w : wt) (no_base : bool) : mres :=
-  {| r_main := f_main w; r_base := if no_base then None else f_base w; r_this := f_this w; r_other := f_other w;
-     r_moved := None; r_conf := if conflicted w then "text" else "" |}.
+Definition of_wt (w : wt) (wrote : bool) : mres :=
+  {| r_main := f_main w; r_base := f_base w; r_this := f_this w; r_other := f_other w;
+     r_moved := None; r_conf := if conflicted w then "text" else ""; r_mm := wrote |}.
 
 (* base / other: None = the path (file id) is absent from that tree.  this_versioned = false: the file is
    on disk but unversioned (unknown, or removed with --keep).  same_id: when BASE lacks the file and THIS
@@ -304,11 +308,11 @@ Definition merge_entry (o : opts) (base : option (list line)) (this : list line)
     | _, None => Some (mres0 tt)                              (* this_pair == other_pair == (None, None) *)
     | None, Some ot =>                                         (* new file meets an unversioned one: duplicate *)
         Some {| r_main := Some (text ot); r_base := None; r_this := None; r_other := None;
-                r_moved := Some tt; r_conf := "duplicate" |}
+                r_moved := Some tt; r_conf := "duplicate"; r_mm := true |}
     | Some b, Some ot =>
         if bytes_eqb (text b) (text ot) then Some (mres0 tt)
         else Some {| r_main := Some tt; r_base := Some (text b); r_this := None; r_other := Some (text ot);
-                     r_moved := None; r_conf := "contents" |}
+                     r_moved := None; r_conf := "contents"; r_mm := false |}
     end
   else
     match base, other with
@@ -320,22 +324,24 @@ Definition merge_entry (o : opts) (base : option (list line)) (this : list line)
                | None => None
                | Some (ls, true) =>
                    Some {| r_main := Some (text ls); r_base := None; r_this := Some tt; r_other := Some (text ot);
-                           r_moved := None; r_conf := "text" |}
+                           r_moved := None; r_conf := "text"; r_mm := true |}
                | Some (ls, false) =>
                    Some {| r_main := Some (text ls); r_base := None; r_this := None; r_other := None;
-                           r_moved := None; r_conf := "" |}
+                           r_moved := None; r_conf := ""; r_mm := true |}
                end
         else Some {| r_main := Some (text ot); r_base := None; r_this := None; r_other := None;
-                     r_moved := Some tt; r_conf := "duplicate" |}
+                     r_moved := Some tt; r_conf := "duplicate"; r_mm := true |}
     | Some b, None =>
         if bytes_eqb tt (text b) then                           (* winner other, OTHER deleted it: "delete" *)
-          Some {| r_main := None; r_base := None; r_this := None; r_other := None; r_moved := None; r_conf := "" |}
+          Some {| r_main := None; r_base := None; r_this := None; r_other := None; r_moved := None; r_conf := "";
+                  r_mm := false |}
         else Some {| r_main := None; r_base := Some (text b); r_this := Some tt; r_other := None;
-                     r_moved := None; r_conf := "contents" |}
+                     r_moved := None; r_conf := "contents"; r_mm := false |}
     | Some b, Some ot =>
         match merge_file o b this ot rs (wt0 this) with
         | None => None
-        | Some w => Some (of_wt w false)
+        | Some w =>                                             (* new content unless "unmodified" *)
+            Some (of_wt w (negb (bytes_eqb (text b) (text ot)) && negb (bytes_eqb tt (text ot))))
         end
     end.
 
@@ -374,7 +380,7 @@ Definition run_decision (c : chg) : obs := obs_action (alter_action c).
 
 Definition obs_mres (r : mres) : obs :=
   OL [oopt OB (r_main r); oopt OB (r_base r); oopt OB (r_this r); oopt OB (r_other r); oopt OB (r_moved r);
-      OT (r_conf r)].
+      OT (r_conf r); obool (r_mm r)].
 Definition run_merge (o : opts) (base : option (list line)) (this : list line) (tv sid : bool)
     (other : option (list line)) (rs : list iregion) : obs :=
   match merge_entry o base this tv sid other rs with
@@ -393,3 +399,64 @@ Definition uncommit_tree (new_basis : fmap) (s : state) : state :=
   {| basis := new_basis; inv := inv s; disk := disk s; mm := mm s |}.
 Definition run_uncommit (u : list bytes) (new_basis : fmap) (s : state) : obs :=
   obs_state u (uncommit_tree new_basis s).
+
+(* ------------------------------------------------------------------ Part 5: switch --store *)
+(* breezy/switch.py : switch(store_uncommitted) -> InventoryWorkingTree.store_uncommitted (shelve everything,
+   Branch.store_uncommitted: ChangesAlreadyStored when the branch already holds a shelf; the shelf is WRITTEN
+   before the tree is changed) -> set the branch reference -> Merge3Merger(base, target) ->
+   restore_uncommitted (unshelve what the new branch holds, then delete it).
+   The tree's uncommitted work is a list of (name, text); two branches false/true. *)
+Record sst := {
+  s_cur : bool;                                  (* the branch the checkout refers to *)
+  s_tree : list (bytes * bytes);                 (* uncommitted texts in the tree *)
+  s_stF : option (list (bytes * bytes));         (* what branch "false" has stored *)
+  s_stT : option (list (bytes * bytes))          (* what branch "true" has stored *)
+}.
+Inductive sop := OEdit (n t : bytes) | OSwitch (to store : bool).
+
+Definition stored (st : sst) (b : bool) := if b then s_stT st else s_stF st.
+Definition set_stored (st : sst) (b : bool) (v : option (list (bytes * bytes))) : sst :=
+  if b then {| s_cur := s_cur st; s_tree := s_tree st; s_stF := s_stF st; s_stT := v |}
+  else {| s_cur := s_cur st; s_tree := s_tree st; s_stF := v; s_stT := s_stT st |}.
+Definition set_tree (st : sst) (t : list (bytes * bytes)) : sst :=
+  {| s_cur := s_cur st; s_tree := t; s_stF := s_stF st; s_stT := s_stT st |}.
+
+(* the bool = the command raised (ChangesAlreadyStored) *)
+Definition sstep (st : sst) (op : sop) : sst * bool :=
+  match op with
+  | OEdit n t => (set_tree st ((n, t) :: remove_key n (s_tree st)), false)
+  | OSwitch to store =>
+      if store then
+        let after_store :=
+          match s_tree st with
+          | [] => Some st                                          (* shelve_all() is False: nothing to store *)
+          | _ :: _ => match stored st (s_cur st) with
+                      | Some _ => None                             (* ChangesAlreadyStored *)
+                      | None => Some (set_tree (set_stored st (s_cur st) (Some (s_tree st))) [])
+                      end
+          end in
+        match after_store with
+        | None => (st, true)
+        | Some st1 =>
+            let st2 := {| s_cur := to; s_tree := s_tree st1; s_stF := s_stF st1; s_stT := s_stT st1 |} in
+            match stored st2 to with
+            | Some e => (set_tree (set_stored st2 to None) (e ++ s_tree st2), false)
+            | None => (st2, false)
+            end
+        end
+      else ({| s_cur := to; s_tree := s_tree st; s_stF := s_stF st; s_stT := s_stT st |}, false)
+  end.
+
+Definition all_work (st : sst) : list (bytes * bytes) :=
+  s_tree st ++ match s_stF st with Some e => e | None => [] end ++ match s_stT st with Some e => e | None => [] end.
+
+(* run a sequence, observing after every step: raised?, the text at each observed name *)
+Definition obs_sst (u : list bytes) (st : sst) (raised : bool) : obs :=
+  OL [obool raised; olist (fun n => oopt OB (lookup n (s_tree st))) u].
+Fixpoint run_store_from (u : list bytes) (st : sst) (ops : list sop) : list obs :=
+  match ops with
+  | [] => []
+  | op :: t => let '(st', r) := sstep st op in obs_sst u st' r :: run_store_from u st' t
+  end.
+Definition sst0 : sst := {| s_cur := false; s_tree := []; s_stF := None; s_stT := None |}.
+Definition run_store (u : list bytes) (ops : list sop) : obs := OL (run_store_from u sst0 ops).
